@@ -210,6 +210,48 @@ impl PrecomputedReplicas {
     }
 }
 
+/// Verification hooks: thin pass-throughs to private items, no logic.
+#[cfg(feature = "scylla-verif")]
+pub(crate) mod verif_hooks {
+    use super::{DatacenterPrecomputedReplicas, PrecomputedReplicasRing, Replicas};
+    use crate::cluster::node::Node;
+    use crate::routing::Token;
+    use crate::routing::locator::TokenRing;
+    use std::sync::Arc;
+    use uuid::Uuid;
+
+    fn tagged_ring(tag: usize) -> TokenRing<Replicas> {
+        let replicas: Replicas = (0..tag)
+            .map(|i| Arc::new(Node::verif_new(Uuid::from_u128(i as u128 + 1), None, None)))
+            .collect();
+        TokenRing::new(std::iter::once((Token::new(0), replicas)))
+    }
+
+    /// A datacenter table with a compressed ring (tag 0) for RF <= `compressed_max_rf` and one ring per key of
+    /// `above` (tag = position + 1); returns the tag of the ring handed out for `rf`.
+    pub(crate) fn ring_for_rf(
+        compressed_max_rf: Option<usize>,
+        above: &[usize],
+        rf: usize,
+    ) -> Option<usize> {
+        let table = DatacenterPrecomputedReplicas {
+            compressed_replica_ring: compressed_max_rf.map(|max_rep_factor| PrecomputedReplicasRing {
+                replicas_for_token: tagged_ring(0),
+                max_rep_factor,
+            }),
+            above_rack_count_replica_rings: above
+                .iter()
+                .enumerate()
+                .map(|(i, k)| (*k, tagged_ring(i + 1)))
+                .collect(),
+        };
+        table
+            .get_replica_ring_for_rf(rf)
+            .and_then(|ring| ring.get_elem_for_token(Token::new(0)))
+            .map(|replicas| replicas.len())
+    }
+}
+
 #[cfg(test)]
 mod tests {
     use std::collections::HashMap;
